@@ -133,7 +133,43 @@ def q_uf(ex, args, kwargs):
     return mk_int(f(*terms))
 
 
+def q_ufb(ex, args, kwargs):
+    """bytes-valued uninterpreted function with a result of concrete length n: one Int-valued
+    function per output byte position (so that results are concatenations of units, like
+    every other byte string of concrete length)"""
+    from . import models as M
+    from .engine import mk_bytes, zbytes
+
+    name, n = args[0], M.plain(args[1])
+    if not isinstance(n, int):
+        raise Unsupported('ufb with symbolic result length')
+    terms = []
+    for v in [M.plain(a) for a in args[2:]]:
+        k = ex.kind_of(v)
+        if k in ('int', 'bool'):
+            terms.append(zint(v))
+        elif k in ('bytes', 'bytearray'):
+            terms.append(z3.simplify(zbytes(ex.as_bytes_value(v))))
+        else:
+            raise Unsupported(f'ufb argument of kind {k}')
+    if n == 0:
+        return b''
+    units = []
+    for j in range(n):
+        key = (name, j, tuple(str(t.sort()) for t in terms))
+        f = _UFS.get(key)
+        if f is None:
+            f = z3.Function(f'ufb_{name}_{j}', *[t.sort() for t in terms], z3.IntSort())
+            _UFS[key] = f
+        bj = f(*terms)
+        ex.add_def(z3.And(bj >= 0, bj <= 255))
+        M.mark_byte(ex, bj)
+        units.append(z3.Unit(bj))
+    return mk_bytes(units[0] if n == 1 else z3.Concat(*units))
+
+
 SPEC_FORMS = {
+    C.ufb: q_ufb,
     C.uf: q_uf,
     C.mhas: q_mhas,
     C.mget: q_mget,
